@@ -41,6 +41,17 @@ theorem skel_token : skel_hot_reloading_mod_Answers_get_unique_token = [.call .s
 theorem skel_reload : skel_hot_reloading_mod_HotReloader_reload =
     [.call .s_get_unique_token, .call .s_Ptr, .call .s_send, .branch [[.call .s_wait_for_answer], []]] := rfl
 
+/-- `HotReloader::start` creates the cache→reloader channel **unbounded**. The mailbox model relies on it:
+`send` on `cache_msg` is a step that never blocks. This matters because the reloader thread is the only
+consumer of that channel *and also sends on it* (a reload that loads never-cached assets reaches
+`HotReloader::add_asset` on the reloader thread): with a bounded channel that send blocks for ever once
+the queue is full and the pending `hot_reload` never returns (seeded mutation C08-a; engine op `hr.bulk`). -/
+theorem skel_start_unbounded_channel : skel_hot_reloading_mod_HotReloader_start =
+    [.call .s_unbounded, .call .s_name, .closure [.call .s_hot_reloading_thread], .call .s_spawn] := rfl
+/-- the three senders on that channel do nothing but send -/
+theorem skel_add_asset_sends : skel_hot_reloading_mod_HotReloader_add_asset = [.call .s_AddAsset, .call .s_send] := rfl
+theorem skel_clear_sends : skel_hot_reloading_mod_HotReloader_clear = [.call .s_send] := rfl
+
 /-- the `Ptr` arm of the thread loop: update first, then answer -/
 def ptrArm : List Reloader.Sk → List Reloader.Sk
   | [_, _, .loop (_ :: .loop [_, .branch (arm :: _)] :: _)] => arm
